@@ -3,7 +3,7 @@
 from the failures of the all-CPU sweeps (tools/cpu_sweep.py) on the CURRENT tree, thorough tier (its input sets contain
 the quick tier's).  Run it only on a tree whose failures have been triaged: every entry it writes claims that the
 unchanged code violates the property on that input (notes/sweep.md records the triage).
-usage: NV_REPO=<tree> sweep_regen.py C01 C06 C07 C08"""
+usage: NV_REPO=<tree> sweep_regen.py C01 C06 C07 C08 [--class=<regex on the signature>]"""
 import sys, os, json, re
 sys.path.insert(0, os.path.dirname(os.path.abspath(__file__)))
 import nvlib, cpu_sweep
@@ -15,6 +15,7 @@ KIND_WHAT = {"short": "length below one address unit", "nonlocal": "text/length 
 
 def main():
     props = [a for a in sys.argv[1:] if not a.startswith("--")]
+    cls = ([a.split("=", 1)[1] for a in sys.argv[1:] if a.startswith("--class=")] or [None])[0]
     assert not os.environ.get("NV_SWEEP_ONLY"), "NV_SWEEP_ONLY restricts the input sets"
     repo = nvlib.build_repo()
     path = os.path.join(nvlib.VERIF, "known_findings_sweep.json")
@@ -24,7 +25,10 @@ def main():
         ctx.repo = repo
         ctx.harness = nvlib.build_tool("nv_harness", ["nv_harness.cpp"], repo)
         # the member sets of the old entries must not hide members: drop them first
-        data["entries"] = [e for e in data["entries"] if e["property"] != prop]
+        # (--class=<regex>: only the entries / failures whose signature matches are dropped and rewritten, every other
+        # entry of the property stays as it is)
+        keep = lambda sig: cls is not None and not re.search(cls, sig)
+        data["entries"] = [e for e in data["entries"] if e["property"] != prop or keep(e["match"].replace("\\", ""))]
         json.dump(data, open(path, "w"), indent=1)
         orc = {"cases": 0, "failures": [], "stats": {}}
         getattr(cpu_sweep, prop.lower() + "_oracle")(ctx, orc)
@@ -35,7 +39,7 @@ def main():
             m = re.match(r"^(C08:sweep:[a-z0-9_]+:(?:short|nonlocal|nonul|crash|hang)(?:@[a-z0-9]+)?):([0-9a-f]{4})$", sig)
             if m:
                 sig = m.group(1)          # member of a class: the class entry below names every member
-            if sig in seen:
+            if sig in seen or keep(sig):
                 continue
             seen.add(sig)
             e = {"property": prop, "id": "sweep-" + nvlib.sha(sig.encode())[:10], "state": "finding", "match": re.escape(sig),
